@@ -178,6 +178,10 @@ def step (s : Option St) (line : String) : Option St × String :=
         (some { st with proc := some r.1 }, showState c st.env r.1 (filedOf w st.env.hash))
       | none => (s, "bad-op")
     | _, _ => (s, "bad-op")
+  | ["groupk", n] =>
+    match nat? n with
+    | some n => (s, s!"k={groupK n}")
+    | none => (s, "bad-op")
   | ["chain", b] =>
     match s, bool? b with
     | some st, some b => (some { st with env := { st.env with blockExists := b } }, "ok")
